@@ -1,8 +1,8 @@
 """C18 formatting is idempotent."""
-REG_DRAFT = dict(
+REG = dict(
     engine='E1-enum',
     technique='bounded-exhaustive enumeration of syntax trees x layouts and of single-token edits (inputs with parse errors), fixed-point oracle on the real formatter; `garden format --check` through the real CLI',
-    text='The C17 space with the reduced depth-2 set in both tiers (every tree of the depth-1/depth-2 production sets and the definition-level set under every layout with <=1 / <=2 deviating gaps over an 8-separator alphabet, string-literal content variants; here INCLUDING the layouts the parser rejects or maps to another tree) plus every single-piece deletion, insertion and replacement over an 18-lexeme edit alphabet applied to the canonical text of the representative trees and items (quick) / of every depth-1 tree and every definition item (thorough). Oracle: format(format(s)) == format(s) for every input, in process; `garden format --check <file>` exits 0 on a bounded subset of the distinct formatter outputs (every output of the representative / definition / edit families up to the cap, 16 CLI processes in parallel) and exits 1 on every output the in-process check found unstable. Exhaustive within these bounds.',
+    text='Inputs: (1) the C17 layout space with the reduced depth-2 set in both tiers (every program of the depth-1 / depth-2 / representative / definition-level sets under every layout with <=1 (some groups <=2 in thorough) gaps deviating from canonical over the 8-separator alphabet, all string-literal content variants), here INCLUDING the layouts the parser rejects or maps to another tree; (2) every single-piece deletion, insertion-before and replacement over an 18-lexeme edit alphabet (identifiers, literals, unclosed string, brackets, `=`, `=>`, keywords, a line comment, a non-ASCII character) applied to the canonical text of 117 representative trees and items (quick) / of every C33 depth-1 tree and every definition-level program (thorough): mostly inputs with parse errors. Oracle: format(format(s)) == format(s) for every input, in process; `garden format --check <file>` through the real CLI (16 processes in parallel) exits 0 on every distinct output of the representative, definition and edit families up to a cap (1200 quick / 6000 thorough) and exits 1 on outputs the in-process check found unstable (a disagreement between the two is reported as adapter drift). Exhaustive within these bounds.',
     note='The in-process adapter calls the same `format::format` as the CLI; the CLI additionally strips a reftest footer (`// args: ` lines) which the explored alphabet cannot produce. Inputs outside the layout / edit bounds are not covered.',
     design_ref='DESIGN.md §6 C17 / C18',
 )
@@ -72,7 +72,7 @@ def run(ctx):
     n_inputs = n_jobs = n_changed = n_err_inputs = 0
     unstable = {}            # F -> (sig, detail)
     cli_pool = {}            # F -> description (bounded, deterministic order)
-    cli_cap = 2500 if ctx.quick else 6000
+    cli_cap = 1200 if ctx.quick else 6000
     status = {}
 
     def settle(pending):
@@ -167,7 +167,7 @@ def run(ctx):
     print(f"  [c18] edits {time.time() - t0:.1f}s edits={n_edits}", flush=True)
     # ---- (3) real CLI: `garden format --check` on the written file
     targets = list(cli_pool.items())
-    extra = [F for F in unstable if F not in cli_pool][:300]
+    extra = [F for F in unstable if F not in cli_pool][:150 if ctx.quick else 600]
     os.makedirs(os.path.join(ctx.scratch, "fmt"), exist_ok=True)
 
     def one(arg):
